@@ -18,6 +18,7 @@ package vm
 
 //@ func opSplit
 //@   serves C14, C15
+//@   safety[C14]
 //@   ensures @backing result1 == nil || sameBacking(result1, b)
 //@   ensures @complete result2 == nil ==> len(b) >= 2 && opAt(b, 0) <= _MAX
 //@   ensures @value result2 == nil ==> int(result0) == opAt(b, 0) && result1 == b[2:]
@@ -25,6 +26,7 @@ package vm
 
 //@ func instructionSplit
 //@   serves C14, C15
+//@   safety[C14]
 //@   ensures @backing result1 == nil || sameBacking(result1, b)
 //@   ensures @complete result2 == nil ==> okStr(b, 0)
 //@   ensures @value result2 == nil ==> result0 == strAt(b, 0) && result1 == b[afterStr(b, 0):]
@@ -32,6 +34,7 @@ package vm
 
 //@ func intSplit
 //@   serves C14, C15
+//@   safety[C14]
 //@   ensures @backing result1 == nil || sameBacking(result1, b)
 //@   ensures @complete result2 == nil ==> okInt(b, 0)
 //@   ensures @value result2 == nil ==> int(result0) == intAt(b, 0) && result1 == b[afterInt(b, 0):]
@@ -42,6 +45,7 @@ package vm
 
 //@ func parseSym
 //@   serves C14, C15
+//@   safety[C14]
 //@   ensures @backing result1 == nil || sameBacking(result1, b)
 //@   ensures @complete result2 == nil ==> okStr(b, 0)
 //@   ensures @value result2 == nil ==> result0 == strAt(b, 0) && result1 == b[afterStr(b, 0):]
@@ -49,6 +53,7 @@ package vm
 
 //@ func parseTwoSym
 //@   serves C14, C15
+//@   safety[C14]
 //@   ensures @backing result2 == nil || sameBacking(result2, b)
 //@   ensures @complete result3 == nil ==> okStr(b, 0) && okStr(b, afterStr(b, 0))
 //@   ensures @value result3 == nil ==> result0 == strAt(b, 0) && result1 == strAt(b, afterStr(b, 0))
@@ -57,6 +62,7 @@ package vm
 
 //@ func parseSymLen
 //@   serves C14, C15
+//@   safety[C14]
 //@   ensures @backing result2 == nil || sameBacking(result2, b)
 //@   ensures @complete result3 == nil ==> okStr(b, 0) && okInt(b, afterStr(b, 0))
 //@   ensures @value result3 == nil ==> result0 == strAt(b, 0) && int(result1) == intAt(b, afterStr(b, 0))
@@ -65,6 +71,7 @@ package vm
 
 //@ func parseSymSig
 //@   serves C14, C15
+//@   safety[C14]
 //@   ensures @backing result3 == nil || sameBacking(result3, b)
 //@   ensures @complete result4 == nil ==> okStr(b, 0) && okInt(b, afterStr(b, 0)) && afterInt(b, afterStr(b, 0)) < len(b)
 //@   ensures @value result4 == nil ==> result0 == strAt(b, 0) && int(result1) == intAt(b, afterStr(b, 0))
@@ -74,6 +81,7 @@ package vm
 
 //@ func parseSig
 //@   serves C14, C15
+//@   safety[C14]
 //@   ensures @backing result2 == nil || sameBacking(result2, b)
 //@   ensures @complete result3 == nil ==> okInt(b, 0) && afterInt(b, 0) < len(b)
 //@   ensures @value result3 == nil ==> int(result0) == intAt(b, 0)
@@ -89,6 +97,7 @@ package vm
 //@ ghost nlNumAt(instructionList, strargs, byteargs) = nlBytesAt(instructionList, strargs) + ite(byteargs != nil, 1 + len(byteargs), 0)
 //@ func NewLine
 //@   serves C14
+//@   safety[C14]
 //@   ensures @fresh fresh(result) || sameBacking(result, instructionList)
 //@   requires len(strargs) <= 2 && forall(i, 0, len(strargs), len(strargs[i]) >= 1 && len(strargs[i]) <= 255)
 //@   requires len(byteargs) <= 255
